@@ -152,9 +152,11 @@ class CallFrame(MemorySegment):
         # (set by the FRAME instruction once the arguments are taken)
         self.stack_base = 0
 
-        # the depth of the operand stack when the statement being
-        # executed in this frame began (known with debug info only)
-        self.stmt_stack_depth = None
+        # the return addresses of the GOSUBs that are active in this
+        # frame: (index on the operand stack, the cell), innermost
+        # last. an entry is valid as long as that cell is still at
+        # that index (RETURN pops it; entries are discarded lazily)
+        self.gosub_marks = []
 
     def set_temp_reference(self, idx, value):
         # get a non reference value, create a temporary cell for it,
@@ -238,29 +240,6 @@ class QvmCpu:
         self.trap_target = None
         self.error_handler_active = False
         self.trapped_addr = 0
-
-        # the depth of the operand stack when the statement that
-        # raised the error being handled began (see stmt_starts)
-        self.trapped_stack_depth = None
-
-        # the addresses statements begin at (known with debug info
-        # only): the depth of the operand stack is noted there, so
-        # that the partial results of a statement that fails can be
-        # dropped when it is resumed or skipped
-        self.stmt_starts = None
-        debug_info = getattr(module, 'debug_info', None)
-        if debug_info is not None:
-            # (the record of a routine begins at its FRAME instruction,
-            # which is executed while the caller's frame is current,
-            # in the middle of the calling statement: not the start
-            # of a statement of the frame that would take the note)
-            routine_starts = {
-                routine.start_offset
-                for routine in debug_info.routines.values()
-            }
-            self.stmt_starts = frozenset(
-                stmt.start_offset for stmt in debug_info.stmts
-                if stmt.start_offset not in routine_starts)
 
         self.received_keyboard_interrupt = False
         signal.signal(signal.SIGINT, self.signal_handler)
@@ -352,11 +331,6 @@ class QvmCpu:
             self.received_keyboard_interrupt = False
             self._trap(TrapCode.KEYBOARD_INTERRUPT)
             return
-
-        if self.stmt_starts is not None and \
-           self.cur_frame is not None and \
-           self.pc in self.stmt_starts:
-            self.cur_frame.stmt_stack_depth = len(self.stack)
 
         self.prev_pc = self.pc
         instr_addr = self.pc
@@ -459,14 +433,23 @@ class QvmCpu:
 
     def _drop_partial_results(self):
         # what the failing statement had pushed so far is of no use to
-        # the statement when it is resumed, or to the next statement
-        # (a RETURN would take it for an address). this happens when
-        # RESUME or RESUME NEXT is executed, not when the handler is
-        # entered: resuming needs the debug info anyway, and a program
-        # that does not resume behaves the same with and without it.
-        if self.trapped_stack_depth is not None:
-            del self.stack[self.trapped_stack_depth:]
-            self.trapped_stack_depth = None
+        # the handler, to the statement when it is resumed, or to the
+        # next statement (a RETURN would take it for an address). at
+        # the start of a statement the operand stack holds what it
+        # held when the routine was entered (the return address on
+        # top) and the return addresses of the active GOSUBs, nothing
+        # else: everything above the innermost of those goes.
+        frame = self.cur_frame
+        if frame is None:
+            return
+        marks = frame.gosub_marks
+        while marks:
+            idx, cell = marks[-1]
+            if idx < len(self.stack) and self.stack[idx] is cell:
+                break
+            marks.pop()
+        depth = marks[-1][0] + 1 if marks else frame.stack_base + 1
+        del self.stack[depth:]
 
     def _trap(self, code, **kwargs):
         logger.info('Received trap: %s', code)
@@ -477,11 +460,9 @@ class QvmCpu:
         if not self.error_handler_active and \
            self.trap_target is not None:
             if self.trap_target == 'next':
-                if self.cur_frame is not None:
-                    self.trapped_stack_depth = \
-                        self.cur_frame.stmt_stack_depth
                 try:
                     self._exec_errresn()
+                    self._drop_partial_results()
                     return
                 except Trapped as e:
                     # cannot skip the failing statement (no debug info
@@ -504,9 +485,7 @@ class QvmCpu:
                     del self.stack[frame.stack_base:]
                     self.cur_frame = frame.prev_frame
                     frame.destroy()
-                if self.cur_frame is not None:
-                    self.trapped_stack_depth = \
-                        self.cur_frame.stmt_stack_depth
+                self._drop_partial_results()
                 self.pc = self.trap_target
                 self.error_handler_active = True
                 return
@@ -758,7 +737,20 @@ class QvmCpu:
 
     def _exec_call(self, target):
         self.push(CellType.LONG, self.pc)
+        if self.cur_frame is not None and \
+           not self._is_frame_instr(target):
+            # a GOSUB (the call of a procedure lands on its FRAME
+            # instruction): its return address stays on the operand
+            # stack of this frame until RETURN
+            self.cur_frame.gosub_marks.append(
+                (len(self.stack) - 1, self.stack[-1]))
         self.pc = target
+
+    def _is_frame_instr(self, addr):
+        if addr < 0 or addr >= len(self.module.code):
+            return False
+        instr = op_code_to_instr.get(self.module.code[addr])
+        return instr is not None and instr.op == 'frame'
 
     def _exec_chr(self):
         char_code = self.pop(CellType.INTEGER)
@@ -895,7 +887,6 @@ class QvmCpu:
             self.trap(TrapCode.CANNOT_RESUME,
                       msg=f'Could not find statement to resume at addr {self.trapped_addr:08x}.')
         self.error_handler_active = False
-        self._drop_partial_results()
         self.pc = stmt.start_offset
 
     def _exec_errresn(self):
@@ -908,7 +899,6 @@ class QvmCpu:
             self.trap(TrapCode.CANNOT_RESUME,
                       msg=f'Could not find statement to resume at addr {self.trapped_addr:08x}.')
         self.error_handler_active = False
-        self._drop_partial_results()
         self.pc = stmt.end_offset
 
     def _exec_exp(self):
